@@ -95,6 +95,7 @@ def _mk(ctx, path_len):
         ok = ex_.fresh_bool("spawn_ok")
         has_in, has_out = ex_.fresh_bool("child_stdin_present"), ex_.fresh_bool("child_stdout_present")
         ev["spawn"] = fsmodels.record(ex_, st, "spawn-ssh", path=I(0), ok=ok)
+        ev.setdefault("spawns", []).append(ev["spawn"])
         ev["has_in"], ev["has_out"] = has_in, has_out
         child = VStruct("Child", [VOpaque("inner"), opt_sym(has_in, VStruct("ChildStdin", [])), opt_sym(has_out, VStruct("ChildStdout", [])), VEnum("Option", I(0), {0: []})])
         return fsmodels.io_result(ex_, ok, child)
@@ -181,13 +182,21 @@ def _mk(ctx, path_len):
     def wait(ex_, st, args, dest_ty, func, where):
         ok = ex_.fresh_bool("wait_ok")
         succ = ex_.fresh_bool("exit_success")
+        has_code, code = ex_.fresh_bool("has_exit_code"), ex_.fresh_int("exit_code", lo=0, hi=255)
+        ex_.assumes.append(succ == z3.And(has_code, code == 0))      # killed by a signal: no code, not a success
         ev["wait"] = fsmodels.record(ex_, st, "wait-child", path=I(0), ok=ok, success=succ)
         ev.setdefault("waits", []).append(ev["wait"])
-        out = VStruct("Output", [VStruct("ExitStatus", [VBool(succ)]), VSeq(textmodels.K0, I(0), I(0), "u8"), VSeq(textmodels.K0, I(0), I(0), "u8")])
+        out = VStruct("Output", [VStruct("ExitStatus", [VBool(succ), VBool(has_code), VInt(code, "i32")]), VSeq(textmodels.K0, I(0), I(0), "u8"), VSeq(textmodels.K0, I(0), I(0), "u8")])
         return asyncmodels.ready(fsmodels.io_result(ex_, ok, out))
 
     def success(ex_, st, args, dest_ty, func, where):
         return VBool(deep(st, args[0]).f[0].t)
+
+    def exit_code(ex_, st, args, dest_ty, func, where):
+        e = deep(st, args[0])
+        if len(e.f) < 3:
+            raise Unsupported("ExitStatus::code on a status without a modelled code")
+        return opt_sym(e.f[1].t, VInt(e.f[2].t, "i32"))
 
     def drop(ex_, st, args, dest_ty, func, where):
         v = deep(st, args[0])
@@ -232,6 +241,7 @@ def _mk(ctx, path_len):
                  (re.compile(r"^<tokio::fs::File as (tokio::io::)?AsyncWriteExt>::flush$"), tflush, "File::flush (recorded)"),
                  (re.compile(r"^tokio::process::Child::wait_with_output$"), wait, "Child::wait_with_output (recorded; any outcome)"),
                  (re.compile(r"^(std::process::)?ExitStatus::success$"), success, "ExitStatus::success"),
+                 (re.compile(r"^(std::process::)?ExitStatus::code$"), exit_code, "ExitStatus::code (None when the child was killed by a signal)"),
                  (re.compile(r"^std::mem::drop::<"), drop, "mem::drop (closing a pipe end is recorded)"),
                  (re.compile(r"^(std::string::)?String::from_utf8_lossy$"), lossy, "from_utf8_lossy (some text)"),
                  (re.compile(r"^std::vec::from_elem::<u8>$|^alloc::vec::from_elem::<u8>$"), vec_from_elem, "vec![0u8; n]"),
@@ -269,7 +279,9 @@ def _setup(ctx, ex, fn_name, values):
     if fn is None:
         raise Inconclusive("no MIR body %s" % fn_name)
     caps = captures(ctx, fn)
-    if set(caps.values()) != set(values):
+    optional = {k[1:] for k in values if k.startswith("?")}
+    values = {k.lstrip("?"): v for k, v in values.items()}
+    if not (set(values) - optional <= set(caps.values()) <= set(values)):
         raise Inconclusive("%s captures %r, expected %r" % (fn_name, sorted(caps.values()), sorted(values)))
     st = State()
     st.frames[0] = {"co": VEnum("Coroutine", I(0), {-1: [values[caps[i]] for i in sorted(caps)]})}
@@ -398,7 +410,8 @@ def list_obligation(ctx, R, prover, pid, path_len=3):
 
 # ----------------------------------------------------------------- native: the real binary, the real bash
 
-HOSTILE = ["plain", "a b", "a'b", "a\\b", "a\\'b", "a\\\\b'", "$HOME", "`id`", "a\"b", "*?[x]", "a\nb", "-n", "été", "a\\nb", "'", "\\", "a;b&c|d", "#x", "~", "a\tb", "$'x'", "\\'"]
+LONG_NAME = "L" * 250      # a legal name whose staging sibling `<name>.copia-tmp` exceeds NAME_MAX: the remote `cat > tmp` fails
+HOSTILE = ["plain", "a b", "a'b", "a\\b", "a\\'b", "a\\\\b'", "$HOME", "`id`", "a\"b", "*?[x]", "a\nb", "-n", "été", "a\\nb", "'", "\\", "a;b&c|d", "#x", "~", "a\tb", "$'x'", "\\'", LONG_NAME]
 
 
 def _name_from_model(model, P):
@@ -468,6 +481,10 @@ def judge_transport(direction, name, r, data="payload\n", mtime=1_600_000_123):
         return "files appeared outside the destination: %s" % r["stray"]
     if r["rc"] == 0 and r["dst"] != want:
         return "exit 0 but the destination is %s, expected %s" % (json.dumps(r["dst"])[:200], json.dumps(want)[:200])
+    if r["rc"] != 0 and len(name.encode()) > 245:
+        # no room for `<name>.copia-tmp`: this file cannot be staged, the run may fail - with an error, and without touching anything else
+        bad = {k: v for k, v in r["dst"].items() if not k.endswith(".copia-tmp") and (k not in want or v[0] != want[k][0])}
+        return ("exit %d and the destination holds %s" % (r["rc"], json.dumps(bad)[:200])) if bad else None
     if r["rc"] != 0:
         bad = {k: v for k, v in r["dst"].items() if k.endswith(".copia-tmp") is False and (k not in want or v[0] != want[k][0])}
         if bad:
@@ -536,6 +553,8 @@ def native_validation(R, pid, directions=("push", "pull")):
                     # the model's reading of the command construction, on this concrete name
                     cmds = [a[-1] for a in r["argv"] if len(a) >= 2 and a[-2] == "fakehost"]
                     root = None
+                    if len(nm.encode()) > 245 and r["rc"] != 0:
+                        continue
                     if direction == "push":
                         hits = [c for c in cmds if c.startswith("cat > $'") and c.endswith(q("/" + nm) + "'")]
                         for c in hits:
@@ -548,6 +567,12 @@ def native_validation(R, pid, directions=("push", "pull")):
                         hits = [c for c in cmds if c.startswith("cat $'") and c.endswith(q("/" + nm) + "'")]
                         if not hits:
                             why = "no `cat $'Q(path)'` for the file was given to ssh: %r" % cmds[:4]
+                if why and why.startswith(("the command line given to ssh", "no push command", "no `cat")):
+                    # the real command line is not the one the text goals specify: the BEHAVIOUR above was right, so this is not a
+                    # violation of the property - it means the specification in this module must be re-derived for the changed code
+                    R.validation["cases"] += n
+                    R.add("%s/remote-shell/native" % pid, "inconclusive", detail="`copia sync -r` (%s, %s) of a file named %r behaves correctly, but %s" % (direction, prof, nm, why))
+                    return
                 if why:
                     R.validation["disagreements"] += 1
                     case = {"fn": "remote_shell_transport", "direction": direction, "name": nm, "observed": {prof: r}}
@@ -637,8 +662,12 @@ def _install_list_models(ex, ev):
                  (re.compile(r"^<(std::slice::)?Chunks<'_, u8> as IntoIterator>::into_iter$"), lambda ex_, st, a, d, f, w: a[0], "Chunks::into_iter"),
                  (re.compile(r"^<(std::slice::)?Chunks<'_, u8> as Iterator>::next$"), chunks_next, "Chunks::next"),
                  (re.compile(r"^Path::join::<&PathBuf>$"), join_any, "Path::join (pull branch; opaque)"),
-                 (re.compile(r"^std::fs::remove_file::<PathBuf>$"), rm_local, "fs::remove_file (pull branch; recorded)"),
+                 (re.compile(r"^std::fs::remove_file::<.*>$"), rm_local, "fs::remove_file (pull branch; recorded)"),
                  (re.compile(r"^std::io::_e?print$"), lambda ex_, st, a, d, f, w: UNIT, "eprintln!"),
+                 (re.compile(r"^TransferProgress::record_err$"), lambda ex_, st, a, d, f, w: (ev.setdefault("errs", []).append(st.guard), UNIT)[1], "TransferProgress::record_err (recorded)"),
+                 (re.compile(r"^<std::io::Error as ToString>::to_string$|^core::str::<impl str>::trim_end$|^<str as ToString>::to_string$|^<Cow<'_, str> as Deref>::deref$"),
+                  lambda ex_, st, a, d, f, w: VRef("val", val=VSeq(z3.Array("SOME_TEXT", z3.IntSort(), z3.IntSort()), I(0), ex_.fresh_int("some_text_len", lo=0, hi=3), "char")) if "Deref" in f or "trim" in f
+                  else VStruct("String", [VSeq(z3.Array("SOME_TEXT", z3.IntSort(), z3.IntSort()), I(0), ex_.fresh_int("some_text_len", lo=0, hi=3), "char")]), "error text plumbing (some text)"),
                  ] + ex.models
 
 
@@ -669,7 +698,7 @@ def list_pipe_obligation(ctx, R, prover, pid, which, path_len=2, n_paths=2):
         if "Push" not in enums:
             raise Inconclusive("enum Dir { .., Push } not found")
         vals = {"dir": VEnum("Dir", I(enums["Push"]), {}), "host": HOST, "remote_root": VRef("val", val=ROOT), "local_root": VRef("val", val=pathv(z3.Int("LOCAL_ROOT"))),
-                "dels": VRef("val", val=lst)}
+                "dels": VRef("val", val=lst), "?progress": VRef("val", val=VStruct("TransferProgress", []))}
         fn, st, poll = _setup(ctx, ex, "apply_remote_deletes::{closure#0}", vals)
         ok = poll.discr == 0
     else:
@@ -702,6 +731,10 @@ def list_pipe_obligation(ctx, R, prover, pid, which, path_len=2, n_paths=2):
     chars = [(ROOT, j) for j in range(path_len)] + [(r, j) for r in rels for j in range(path_len)]
     goals["no-entry-contains-the-delimiter-the-remote-xargs-splits-at-(so-it-sees-exactly-the-intended-paths)"] = z3.And(
         *[z3.Implies(j < t.len, t.at(I(j)) != D) for t, j in chars])
+    if which == "rm" and "spawn" in ev:
+        good = z3.And(_any(z3.And(sp["guard"], sp["ok"]) for sp in ev["spawns"]), _all(z3.Implies(w["guard"], w["ok"]) for w in writes), _any(z3.And(w_["guard"], w_["ok"], w_["success"]) for w_ in ev.get("waits", [])))
+        goals["a-remote-removal-that-did-not-succeed-(spawn,-pipe,-wait-or-exit-status)-is-recorded-as-a-failure,-and-only-then"] = z3.Implies(
+            ok, _any(g for g in ev.get("errs", [])) == z3.Not(good))
     prover.prove(ex, goals, "%s/push/%s-list" % (pid, which),
                  "remote root and 0..%d relative paths of 0..%d characters each, every character any code point except NUL (a file name cannot contain NUL); the remote "
                  "command is the constant %r: xargs splits its input at %s and runs `%s` on the pieces (CONTRACT of the remote xargs)" % (n_paths, path_len, text, "NUL" if D == 0 else "newline", tool),
